@@ -1,0 +1,103 @@
+//go:build verif
+
+package eval
+
+import (
+	"sort"
+
+	"github.com/simimpact/srsim/pkg/logic"
+	"github.com/simimpact/srsim/pkg/logic/gcs/ast"
+)
+
+// This file is only compiled with the `verif` build tag.  It gives the verification harness
+// read access to evaluated values (the object types of this package are unexported) and a tap
+// on the print builtin, so that printed numbers can be compared exactly instead of through
+// their decimal text.  It adds no behaviour to a normal build.
+
+// VerifVal is an exported, deep copy of an evaluated object.
+type VerifVal struct {
+	Kind    string // "null" "num" "str" "fun" "bif" "act" "map" "ret" "ctrl"
+	I       int64
+	F       float64
+	IsFloat bool
+	S       string
+	Act     logic.Action
+	Arr     []VerifVal
+	Keys    []string   // field names, sorted bytewise
+	Fields  []VerifVal // field values, in the order of Keys
+}
+
+// VerifExport copies an object into its exported form.
+func VerifExport(o Obj) VerifVal {
+	switch v := o.(type) {
+	case nil:
+		return VerifVal{Kind: "nil"}
+	case *null:
+		return VerifVal{Kind: "null"}
+	case *number:
+		return VerifVal{Kind: "num", I: v.ival, F: v.fval, IsFloat: v.isFloat}
+	case *strval:
+		return VerifVal{Kind: "str", S: v.str}
+	case *funcval:
+		return VerifVal{Kind: "fun", I: int64(len(v.Args))}
+	case *bfuncval:
+		return VerifVal{Kind: "bif"}
+	case *actionval:
+		return VerifVal{Kind: "act", Act: v.val}
+	case *mapval:
+		r := VerifVal{Kind: "map"}
+		for _, x := range v.array {
+			r.Arr = append(r.Arr, VerifExport(x))
+		}
+		for k := range v.fields {
+			r.Keys = append(r.Keys, k)
+		}
+		sort.Strings(r.Keys)
+		for _, k := range r.Keys {
+			r.Fields = append(r.Fields, VerifExport(v.fields[k]))
+		}
+		return r
+	case *retval:
+		return VerifVal{Kind: "ret", Arr: []VerifVal{VerifExport(v.res)}}
+	case *ctrl:
+		return VerifVal{Kind: "ctrl", I: int64(v.typ)}
+	}
+	return VerifVal{Kind: "unknown"}
+}
+
+// VerifTapPrint wraps the registered print builtin: the wrapper evaluates the arguments of a
+// print call once (in order, stopping at the first error like the builtin does), hands their
+// exported values to sink, and then runs the original builtin on the already evaluated
+// values.  It reports false when no print builtin is registered yet (call it after the
+// system functions have been installed, i.e. from inside Init).
+func (e *Eval) VerifTapPrint(sink func(args []VerifVal)) bool {
+	if e.global == nil {
+		return false
+	}
+	cell, ok := e.global.varMap["print"]
+	if !ok {
+		return false
+	}
+	orig, ok := (*cell).(*bfuncval)
+	if !ok {
+		return false
+	}
+	e.global.setBuiltinFunc("print", func(c *ast.CallExpr, env *Env) (Obj, error) {
+		tmp := NewEnv(env)
+		call := &ast.CallExpr{Pos: c.Pos, Fun: c.Fun}
+		vals := make([]VerifVal, 0, len(c.Args))
+		for i, arg := range c.Args {
+			val, err := e.evalExpr(arg, env)
+			if err != nil {
+				return nil, err
+			}
+			vals = append(vals, VerifExport(val))
+			name := "\x00printarg" + string(rune('a'+i%26)) + string(rune('a'+i/26))
+			tmp.varMap[name] = &val
+			call.Args = append(call.Args, &ast.Ident{Pos: c.Pos, Value: name})
+		}
+		sink(vals)
+		return orig.Body(call, tmp)
+	})
+	return true
+}
